@@ -63,7 +63,7 @@ func (c *OCSPRevocationChecker) IsRevoked(clientCertificate *x509.Certificate, v
 			if output == nil {
 				continue
 			}
-			ocspResponse, err := c.parseOcspResponse(certCandidates, output, ocspServer)
+			ocspResponse, err := c.parseOcspResponse(clientCertificate, certCandidates, output, ocspServer)
 			if err != nil {
 				c.logger.Debug("failed to parse ocsp server response", zap.String("ocsp_server", ocspServer), zap.Error(err))
 				continue
@@ -106,20 +106,35 @@ func (c *OCSPRevocationChecker) calculateEvictionTime(response *ocsp.Response) t
 	}
 }
 
-func (c *OCSPRevocationChecker) parseOcspResponse(certCandidates []*core.CertificateChainEntry, output []byte, ocspServer string) (*ocsp.Response, error) {
-	ocspResponse, err := ocsp.ParseResponse(output, nil)
-	if err == nil {
-		return ocspResponse, nil
-	}
+func (c *OCSPRevocationChecker) parseOcspResponse(clientCertificate *x509.Certificate, certCandidates []*core.CertificateChainEntry, output []byte, ocspServer string) (*ocsp.Response, error) {
+	//A response only counts if it is about this certificate and was signed by the issuer of the certificate
+	//or by a responder which this issuer authorized for OCSP signing
 	for _, certCandidate := range certCandidates {
-		ocspResponse, err := ocsp.ParseResponse(output, certCandidate.Certificate)
+		ocspResponse, err := ocsp.ParseResponseForCert(output, clientCertificate, certCandidate.Certificate)
 		if err != nil {
 			c.logger.Debug("failed to parse ocsp server response", zap.String("ocsp_server", ocspServer), zap.Error(err))
+			continue
+		}
+		if ocspResponse.Certificate != nil && !isAuthorizedResponder(ocspResponse.Certificate, certCandidate.Certificate) {
+			c.logger.Debug("ocsp response was signed by a certificate which is not authorized for ocsp signing", zap.String("ocsp_server", ocspServer))
 			continue
 		}
 		return ocspResponse, nil
 	}
 	return nil, errors.New("unable to parse ocsp response with any certificate available")
+}
+
+// isAuthorizedResponder checks if the certificate delivered with the response may sign responses on behalf of the issuer (rfc6960 4.2.2.2)
+func isAuthorizedResponder(responder *x509.Certificate, issuer *x509.Certificate) bool {
+	if len(responder.Raw) > 0 && bytes.Equal(responder.Raw, issuer.Raw) {
+		return true
+	}
+	for _, usage := range responder.ExtKeyUsage {
+		if usage == x509.ExtKeyUsageOCSPSigning {
+			return true
+		}
+	}
+	return false
 }
 
 func (c *OCSPRevocationChecker) Provision(ocspConfig *config.OCSPConfig, logger *zap.Logger) error {
